@@ -39,6 +39,10 @@ type FnInfo struct {
 	nnMemo   map[nnKey]int
 	phiRet   map[*ssa.BasicBlock]bool // return blocks whose operands include a phi of the same block
 	phiIdx   map[*ssa.Phi]int         // tracked nil-able phis
+	// ignoreTail: exits that forward the result of one of these calls are not
+	// counted as success exits by successWitness (the callee discharges the
+	// obligation under analysis).
+	ignoreTail map[*ssa.Call]bool
 	mod      map[stKey]bool           // struct fields (of error type) this function may store to, transitively
 	modDone  bool
 }
@@ -1373,7 +1377,10 @@ func (fi *FnInfo) successWitness(mode Mode, starts []state, cut map[edgeKey]bool
 		s := nodes[i].s
 		b := fi.Fn.Blocks[s.b]
 		if r, ok := blockTerm(b).(*ssa.Return); ok {
-			cl, _, _, _ := fi.classify(r, state{s.b, fi.through(b, s.m), s.p}, mode)
+			cl, tail, _, _ := fi.classify(r, state{s.b, fi.through(b, s.m), s.p}, mode)
+			if cl != clFail && tail != nil && fi.ignoreTail[tail] {
+				cl = clFail
+			}
 			if cl != clFail {
 				var path []string
 				for k := i; k >= 0; k = nodes[k].parent {
